@@ -48,7 +48,10 @@ var (
 	// This means APK should be a child of JAR detector, but in practice,
 	// the decisive signature for JAR might be located at the end of the file
 	// and not reachable because of library readLimit.
-	zip = newMIME("application/zip", ".zip", magic.Zip, xlsx, docx, pptx, epub, apk, jar, odt, ods, odp, odg, odf, odc, sxc).
+	// The OpenDocument formats are checked before APK and JAR: their first entry,
+	// the stored "mimetype" file, names the format, whatever else the package
+	// holds (a signed document has a META-INF/MANIFEST.MF too).
+	zip = newMIME("application/zip", ".zip", magic.Zip, xlsx, docx, pptx, epub, odt, ods, odp, odg, odf, odc, sxc, apk, jar).
 		alias("application/x-zip", "application/x-zip-compressed")
 	tar = newMIME("application/x-tar", ".tar", magic.Tar)
 	xar = newMIME("application/x-xar", ".xar", magic.Xar)
